@@ -173,4 +173,4 @@ def run(tier, seed):
         mx = max([mx] + [r.get("extra", {}).get("max_reply_len", 0) for r in res])
         v.merge(res)
     v.extra["max_reply_len"] = mx
-    return v.finish(RULE, floor=5000 if tier == "quick" else 50000, assumptions=ASSUME)
+    return v.finish(RULE, floor=500 if tier == "quick" else 5000, assumptions=ASSUME)
